@@ -161,11 +161,15 @@ deriving Repr, DecidableEq
 
 def Txn.undoEntry (t : Txn) : UndoEntry := ⟨t.tid, t.user, t.desc, t.ext, t.tlen⟩
 
-/-- `undoLog(first, last)` (`last ≥ 0`): the undoable transactions, newest first — those after the
-    newest packed one, with normal status — entries number `first` … `last - 1`. -/
-def undoLog (h : History) (first last : Nat) : List UndoEntry :=
-  ((((h.reverse.takeWhile fun t => t.status != stPacked).filter fun t => t.status == stNormal).drop
-    first).take (last - first)).map Txn.undoEntry
+/-- `undoLog(first, last, filter)` (`last ≥ 0`): the undoable transactions, newest first — those
+    after the newest packed one, with normal status — that the filter accepts; of these the entries
+    number `first` … `last - 1` (the window counts the SELECTED transactions). -/
+def undoLogF (h : History) (p : UndoEntry → Bool) (first last : Nat) : List UndoEntry :=
+  ((((h.reverse.takeWhile fun t => t.status != stPacked).filter fun t =>
+      t.status == stNormal && p t.undoEntry).drop first).take (last - first)).map Txn.undoEntry
+
+/-- `undoLog(first, last)` without a filter -/
+def undoLog (h : History) (first last : Nat) : List UndoEntry := undoLogF h (fun _ => true) first last
 
 /-- `lastInvalidations(n)`: tid and oids of the newest `n` transactions, in commit order -/
 def lastInvalidations (h : History) (n : Nat) : List (Nat × List Nat) :=
